@@ -308,6 +308,8 @@ pub fn check_rob(env: &Env, case: &RobCase) -> CaseResult {
                     }
                 }
             }
+            // arguments cannot contain NUL and no message does: a NUL in the text is buffer padding leaking out
+            ensure!(!cause.contains('\0'), format!("ArgParseError::fmt|nul-in-cause|{}", spec.name), "{} on {}: the cause text contains NUL bytes: {:?}", spec.name, shown(), cause);
             let overflow = cause == FALLBACK;
             rep.nontrivial_if(overflow);
             rep.class("rejected");
